@@ -370,6 +370,34 @@ func init() {
 				return Tuple{Slice{append([]Value(nil), e.fsFiles[name].a...)}, Iface{}}
 			}
 		}
+		if e.fsStatFromWalk {
+			// consistent with the registered entries: a directory cannot be read
+			// (EISDIR), a path through a regular file is ENOTDIR, an unregistered
+			// path does not exist
+			for _, we := range e.walkList {
+				if len(we.path.b) == len(path.b) && e.branch(e.strEq(we.path, path)) && e.branch(we.dir) {
+					e.fsRecord("readfile", path, Str{}, false)
+					if t := e.namedType("syscall", "Errno"); t != nil {
+						return Tuple{Slice{}, Iface{t: t, v: e.tt.BV(64, 21)}} // EISDIR
+					}
+					return Tuple{Slice{}, e.newErrorString(e.strConst("read: is a directory (stub)"))}
+				}
+			}
+			if e.belowRegisteredFile(path) {
+				e.fsRecord("readfile", path, Str{}, false)
+				return Tuple{Slice{}, e.errNotDir("open")}
+			}
+			known := false
+			for _, we := range e.walkList {
+				if len(we.path.b) == len(path.b) && e.branch(e.strEq(we.path, path)) {
+					known = true
+				}
+			}
+			if !known {
+				e.fsRecord("readfile", path, Str{}, false)
+				return Tuple{Slice{}, e.sentinel("internal/oserror", "ErrNotExist")}
+			}
+		}
 		ok, err := e.fsFork3("readfile", "ErrNotExist")
 		e.fsRecord("readfile", path, Str{}, ok)
 		if !ok {
